@@ -25,9 +25,17 @@ pub open spec fn spec_pint_cont(s: Seq<u8>) -> Option<(nat, nat)>
 }
 
 /// Implementation limit allowed by RFC 7541 §5.1 ("integer encodings that exceed implementation limits — in value
-/// or octet length — MUST be treated as decoding errors") and RFC 9204 §4.1.1 (at least 62 bits must be
-/// decodable): at most 9 continuation octets (63 bits).
-pub open spec fn spec_pint_max_cont() -> nat { 9 }
+/// or octet length — MUST be treated as decoding errors"): the number of continuation octets the decoder accepts.
+/// RFC 9204 §4.1.1 demands that 62-bit integers be decodable (9 octets); 10 octets suffice for every u64.  The value
+/// is left open between the two so that the contract of `prefix_int::decode` below is true of the pinned code
+/// (`MAX_POWER = 9 * 7`: 9 octets — the C15 finding that u64 values needing a tenth octet do not round-trip) and of a
+/// repaired one (10 octets, kani/_spec.rs::SPEC_PREFIX_INT_MAX_CONT).
+pub uninterp spec fn spec_pint_max_cont() -> nat;
+// ASSUMED-FROM-UNIT: kani c15_int_decode_sound / c15_int_decode_top (the limit `prefix_int::decode` implements)
+#[verifier::external_body]
+pub proof fn axiom_pint_max_cont()
+    ensures 9 <= spec_pint_max_cont() <= 10,
+{}
 
 /// RFC 7541 §5.1: an integer with an `n`-bit prefix at the head of `s`:
 /// `Some((bits above the prefix in the first octet, value, octets used))`; `None` = truncated or oversized.
@@ -39,7 +47,7 @@ pub open spec fn spec_prefix_int_dec(n: nat, s: Seq<u8>) -> Option<(u8, u64, nat
         if i < p2(n) - 1 { Some((flags, i as u64, 1nat)) } else {
             match spec_pint_cont(s.skip(1)) {
                 None => None,
-                Some((v, k)) => if k > spec_pint_max_cont() { None } else { Some((flags, (p2(n) - 1 + v) as u64, 1 + k)) },
+                Some((v, k)) => if k > spec_pint_max_cont() || p2(n) - 1 + v > u64::MAX { None } else { Some((flags, (p2(n) - 1 + v) as u64, 1 + k)) },
             }
         }
     }
@@ -92,7 +100,7 @@ pub proof fn lemma_pow128_mono(a: nat, b: nat)
 pub proof fn lemma_pint_bounds(n: nat, s: Seq<u8>)
     requires 1 <= n <= 8,
     ensures match spec_prefix_int_dec(n, s) {
-        Some((f, v, k)) => 1 <= k <= s.len() && k <= 10 && (f as nat) == s[0] as nat / p2(n) && (f as nat) * p2(n) < 256
+        Some((f, v, k)) => 1 <= k <= s.len() && k <= 11 && (f as nat) == s[0] as nat / p2(n) && (f as nat) * p2(n) < 256
             && (k == 1 ==> (v as nat) == s[0] as nat % p2(n) && v < p2(n) - 1)
             && (k > 1 ==> spec_pint_cont(s.skip(1)) is Some && (v as nat) == p2(n) - 1 + spec_pint_cont(s.skip(1)).unwrap().0 && k == 1 + spec_pint_cont(s.skip(1)).unwrap().1),
         None => true },
@@ -103,10 +111,7 @@ pub proof fn lemma_pint_bounds(n: nat, s: Seq<u8>)
         assert((s[0] as nat / p2(n)) * p2(n) <= s[0] as nat) by (nonlinear_arith) requires p2(n) > 0;
         if i >= p2(n) - 1 {
             lemma_pint_cont_bounds(s.skip(1));
-            match spec_pint_cont(s.skip(1)) {
-                Some((v, k)) => { if k <= 9 { lemma_pow128_mono(k, 9); lemma_pow128_9(); } }
-                None => {}
-            }
+            axiom_pint_max_cont();
         }
     }
 }
@@ -169,6 +174,7 @@ pub proof fn lemma_pint_roundtrip(n: nat, flags: u8, v: u64)
     ensures spec_prefix_int_dec(n, spec_prefix_int_enc(n, flags, v)) == Some((flags, v, spec_prefix_int_enc(n, flags, v).len())),
         1 <= spec_prefix_int_enc(n, flags, v).len() <= 10,
 {
+    assert(p2(n) <= 256);
     reveal(spec_prefix_int_dec);
     let e = spec_prefix_int_enc(n, flags, v);
     let p = p2(n);
@@ -179,6 +185,7 @@ pub proof fn lemma_pint_roundtrip(n: nat, flags: u8, v: u64)
         let r = (v as nat - (p - 1)) as nat;
         lemma_pow128_9();
         lemma_pint_cont_roundtrip(r, 9);
+        axiom_pint_max_cont();
         assert(e.skip(1) =~= spec_pint_cont_enc(r));
     }
 }
